@@ -23,6 +23,14 @@ def shards(mode, bin_, n, **kw):
 
 
 PROPS = {
+    "C13": {
+        "runs": [{"mode": "native-dev", "bin": "c13"}]
+        + shards("miri", "c13", 16)
+        + [dict(r, tiers=["thorough"]) for r in shards("miri-tb", "c13", 16)]
+        + [{"mode": "asan-dev", "bin": "c13", "leaks": False}],
+        "expect_monitors": ["inplace_programs", "map_in_place_drops"],
+        "assumptions": ASSUME_COMMON + ["the ordinary out-of-place conversions are the reference (shadow buffer)", "Miri runs with -Zmiri-deterministic-floats so that in-place and out-of-place results are comparable bit for bit", "leak detection is off for this driver: mem::forget of a guard and the panic path of map_*_in_place leak by documented design"],
+    },
     "C18": {
         "runs": [{"mode": "native-dev", "bin": "c18"}] + shards("miri", "c18", 16) + [{"mode": "asan-dev", "bin": "c18"}],
         "expect_monitors": ["soa_histories"],
